@@ -14,9 +14,9 @@ Theorem C07_refines_fifo :
   (forall k n a p, open k n a (fst (seal k n a p)) (snd (seal k n a p)) = Some p) ->
   (forall k n a p, length (fst (seal k n a p)) = length p /\ length (snd (seal k n a p)) = 16%nat) ->
   forall key bsizes st evs chunks,
-    small chunks -> no_eof evs -> Forall (fun b => (0 < b)%nat) bsizes ->
+    small chunks -> no_eof evs -> Forall (fun b => (0 < b)%nat) bsizes -> closed st = false ->
     received st ++ datas evs = wire seal key (rctr st) chunks ->
-    let '(rs, st', evs') := run_reads open key st bsizes evs in
+    let '(rs, st', evs') := run_reads true open key st bsizes evs in
     Forall good_result rs /\
     exists k, (k <= length chunks)%nat /\
       concat (map out_of rs) ++ plain_of st' ++ concat (skipn k chunks) = plain_of st ++ concat chunks /\
@@ -27,9 +27,9 @@ Print Assumptions C07_refines_fifo.
 (** the instance hc runs *)
 Theorem C07_refines_fifo_chacha20poly1305 :
   forall key bsizes st evs chunks,
-    small chunks -> no_eof evs -> Forall (fun b => (0 < b)%nat) bsizes ->
+    small chunks -> no_eof evs -> Forall (fun b => (0 < b)%nat) bsizes -> closed st = false ->
     received st ++ datas evs = wire cc_seal key (rctr st) chunks ->
-    let '(rs, st', evs') := run_reads cc_open key st bsizes evs in
+    let '(rs, st', evs') := run_reads true cc_open key st bsizes evs in
     Forall good_result rs /\
     exists k, (k <= length chunks)%nat /\
       concat (map out_of rs) ++ plain_of st' ++ concat (skipn k chunks) = plain_of st ++ concat chunks /\
@@ -40,9 +40,9 @@ Print Assumptions C07_refines_fifo_chacha20poly1305.
 (** A read returns data as soon as a complete frame has arrived: it does not consume any
     further socket event (does not wait for the network). *)
 Theorem C07_progress : forall key f st b evs c cs,
-  small (c :: cs) -> c <> [] -> plain st = None -> complete (received st) = true ->
+  small (c :: cs) -> c <> [] -> plain st = None -> closed st = false -> complete (received st) = true ->
   received st ++ datas evs = wire cc_seal key (rctr st) (c :: cs) ->
-  exists st', conn_read cc_open key (S (S f)) st (S b) evs = (RData (firstn (S b) c), st', evs).
+  exists st', conn_read true cc_open key (S (S f)) st (S b) evs = (RData (firstn (S b) c), st', evs).
 Proof. exact cc_read_progress. Qed.
 Print Assumptions C07_progress.
 
@@ -63,6 +63,6 @@ Example C07_nonvacuous :
   let w := wire cc_seal key 0 chunks in
   let evs := [SockTimeout; SockData (firstn 30 w); SockData (skipn 30 w)] in
   small chunks /\ no_eof evs /\ received (init_conn 0) ++ datas evs = wire cc_seal key (rctr (init_conn 0)) chunks /\
-  fst (fst (run_reads cc_open key (init_conn 0) [3; 3; 3; 3; 3]%nat evs)) =
+  fst (fst (run_reads true cc_open key (init_conn 0) [3; 3; 3; 3; 3]%nat evs)) =
     [RTimeout; RData [1;2;3]; RData [4;5]; RData [6;7]; RBlocked].
 Proof. exact connread_nonvacuous. Qed.
